@@ -137,3 +137,29 @@ def image_from_mask(r, mask, threshold, equal_to_threshold=True):
     if not equal_to_threshold:
         lo -= 1
     return np.where(mask, hi, lo).astype(np.float32)
+
+
+def write_sparse_scan(path, frames, scan="1.1", omega=None):
+    """write a sparse segmentation file as ImageD11.sparseframe.SparseScan reads it.
+    frames: list of (mask, image) 2-D arrays of one shape.  returns list of (row, col, intensity) per frame"""
+    import h5py
+    rows, cols, vals, nnz, per = [], [], [], [], []
+    for m, img in frames:
+        i, j = np.nonzero(m)
+        rows.append(i.astype(np.uint16))
+        cols.append(j.astype(np.uint16))
+        vals.append(img[i, j].astype(np.float32))
+        nnz.append(len(i))
+        per.append((i.astype(np.uint16), j.astype(np.uint16), img[i, j].astype(np.float32)))
+    with h5py.File(path, "w") as h:
+        g = h.create_group(scan)
+        g.attrs["nframes"] = len(frames)
+        g.attrs["shape0"] = frames[0][0].shape[0]
+        g.attrs["shape1"] = frames[0][0].shape[1]
+        g["nnz"] = np.array(nnz, np.int32)
+        g["row"] = np.concatenate(rows) if rows else np.zeros(0, np.uint16)
+        g["col"] = np.concatenate(cols) if cols else np.zeros(0, np.uint16)
+        g["intensity"] = np.concatenate(vals) if vals else np.zeros(0, np.float32)
+        if omega is not None:
+            g.create_group("measurement")["rot"] = np.asarray(omega, float)
+    return per
